@@ -292,6 +292,22 @@ def pmap(func, items, procs=14, chunksize=None):
         return pool.map(func, items, chunksize=chunksize or max(1, len(items) // (procs * 8)))
 
 
+def _after_failure(ctx):
+    """A later stage of the check could not run.  Violations that were already established by TLC on recorded executions (their
+    VIOLATION lines are printed, their replay files written) stand: exit 1.  Otherwise nothing is claimed: exit 2."""
+    if ctx is None:
+        return 2
+    if ctx.violations:
+        ctx.notes["machinery_failure_after_violations"] = True
+        try:
+            return ctx.finish()
+        except Exception:
+            traceback.print_exc()
+            return 1
+    shutil.rmtree(ctx.workdir, ignore_errors=True)
+    return 2
+
+
 def main(argv=None):
     import argparse
     import importlib
@@ -317,14 +333,10 @@ def main(argv=None):
         rc = ctx.finish()
     except (MachineryFailure, T.TlcFailure) as ex:
         print("MACHINERY-FAILURE property=%s: %s" % (prop, ex))
-        if ctx is not None:
-            shutil.rmtree(ctx.workdir, ignore_errors=True)
-        rc = 2
+        rc = _after_failure(ctx)
     except Exception:
         traceback.print_exc()
         print("MACHINERY-FAILURE property=%s: unexpected exception in the harness" % prop)
-        if ctx is not None:
-            shutil.rmtree(ctx.workdir, ignore_errors=True)
-        rc = 2
+        rc = _after_failure(ctx)
     sys.stdout.flush()
     sys.exit(rc)
